@@ -64,7 +64,7 @@ def run(ctx):
     for inc in CONTAINERS + [".gz*"]:
         for outc in CONTAINERS:
             for name in NAMES:
-                for layout in ("single", "paired", "interleaved"):
+                for layout in ("single", "paired", "interleaved", "mixed"):
                     for cores in (1, 2):
                         for infmt in ("fastq", "fasta"):
                             cells.append((inc, outc, name, layout, cores, infmt))
@@ -78,7 +78,8 @@ def run(ctx):
         ser = clirun.fastq if infmt == "fastq" else clirun.fasta
         multi = inc == ".gz*"
         iext = ".gz" if multi else inc
-        if layout == "interleaved":
+        # "mixed": one interleaved input file, but every output as a pair of files
+        if layout in ("interleaved", "mixed"):
             inter = [r for p in zip(r1, r2) for r in p]
             inputs = {f"in.{infmt}{iext}": compress(ser(inter), iext, multi)}
             in_args = ["--interleaved", f"{{dir}}/in.{infmt}{iext}"]
@@ -97,6 +98,9 @@ def run(ctx):
         pre = rng.choice(["", "", "", "s.trimmed.", "x.R1.", "a.fa.", "b.fastq.", "v1.2."])
         o1 = f"{pre}o1.{name}{outc}"
         out_args = ["-o", "{dir}/" + o1]
+        mixed = layout == "mixed"
+        if mixed:
+            layout = "paired"          # (from here on the outputs are those of the two-file layout)
         if layout == "paired":
             out_args += ["-p", f"{{dir}}/{pre}o2.{name}{outc}"]
         # a second output stream (reads without adapter) in the same layout as the main one
@@ -111,8 +115,8 @@ def run(ctx):
                 bout_ut += ["--untrimmed-paired-output", "{dir}/baseu2." + name]
         res, out = run_one(common + out_args + in_args, inputs, cores)
         ctx.evaluations += 1
-        cell = dict(input_container=inc, output_container=outc, name=name, stem_prefix=pre, layout=layout, cores=cores, input_format=infmt)
-        if res.status != 0 and layout == "interleaved" and infmt == "fasta" and cores > 1 and "has no partner" in res.stderr:
+        cell = dict(input_container=inc, output_container=outc, name=name, stem_prefix=pre, interleaved_input_two_file_output=mixed, layout=layout, cores=cores, input_format=infmt)
+        if res.status != 0 and (layout == "interleaved" or mixed) and infmt == "fasta" and cores > 1 and "has no partner" in res.stderr:
             ctx.failures.append(Failure("C19/interleaved-fasta-input-multicore", "interleaved FASTA input fails with more than one core", cell, res.stderr[-200:], 0))
             continue
         if res.status != 0:
@@ -129,7 +133,7 @@ def run(ctx):
         bres, bfiles = run_one(common + bout + bout_ut + bargs, binputs, 1)
         brecs1 = clirun.parse_fastx(bfiles["base1." + name])
         brecs2 = clirun.parse_fastx(bfiles["base2." + name]) if paired else None
-        missing = [fn_ for fn_ in [o1] + ([f"{pre}o2.{name}{outc}"] if layout == "paired" else []) + ([f"{pre}u1.{name}{outc}"] if with_ut else []) if fn_ not in out]
+        missing = [fn_ for fn_ in [o1] + ([f"{pre}o2.{name}{outc}"] if layout == "paired" else []) + ([f"{pre}u1.{name}{outc}"] if with_ut else []) + ([f"{pre}u2.{name}{outc}"] if with_ut and layout == "paired" else []) if fn_ not in out]
         if missing:
             ctx.failures.append(Failure("C19/output-file-missing", "an output file that the command line names was not created (the plain single-core run "
                                         "creates every output file, also an empty one)", cell, sorted(out), missing))
